@@ -146,6 +146,8 @@ func (w *Worker) zero(t types.Type) Value {
 			return w.B.Const(0, widthOf(u))
 		case u.Kind() == types.UntypedNil:
 			return Ptr{}
+		case u.Kind() == types.Invalid:
+			return nil // unused component of a range tuple
 		}
 		unsupported("zero of basic " + u.String())
 	case *types.Pointer:
